@@ -1,7 +1,621 @@
-(** C17 proofs, part 1: delivery order of the BlockFetcher/BlockProcessor state machine. *)
+(** C17 proofs, part 1: the invariant of the BlockFetcher/BlockProcessor state machine and
+    its preservation by every event; consequence: the blocks handed to the chain service form
+    a chain from the ancestor (consecutive heights, each a child of the previous one, each
+    named by the hash list).  [L] is the hash the remote's hash list gives to a height; the
+    hash sets pushed by the HashFetcher must agree with it ([ev_ok]). *)
 From Coq Require Import ZArith NArith List Bool Arith Lia.
 From Verif Require Import Syncer.Model.
 Import ListNotations.
 
-Lemma conn_push_length : forall c q, length (conn_push c q) = S (length q).
-Proof. induction q as [|x r IH]; simpl; auto. destruct (_ <? _)%N; simpl; auto. Qed.
+
+Section Named.
+(** the hash the remote's hash list gives to a height *)
+Variable L : N -> option N.
+
+Definition task_ok (t : task) : Prop :=
+  forall i h, nth_error (t_hashes t) i = Some h -> L (t_start t + N.of_nat i) = Some h.
+Definition hs_ok (x : option (N * list N)) : Prop :=
+  match x with
+  | None => True
+  | Some (start, hs) => forall i h, nth_error hs i = Some h -> L (start + N.of_nat i) = Some h
+  end.
+Definition blk_named (b : blk) : Prop := L (b_no b) = Some (b_hash b).
+Definition chunk_ok (c : chunk) : Prop :=
+  numbered_from (c_first c) (c_blocks c) = true /\ chunk_linked (c_blocks c) = true
+  /\ Forall blk_named (c_blocks c).
+
+Definition last_of (s : st) : blk := match cur_blk s with Some b => b | None => prev_blk s end.
+
+Record Inv (s : st) : Prop := {
+  inv_run : Forall task_ok (running s);
+  inv_pend : Forall task_ok (pending s);
+  inv_retry : Forall task_ok (retry s);
+  inv_hs : hs_ok (hfch s);
+  inv_q : Forall chunk_ok (connq s);
+  inv_cc : forall c i, cur_conn s = Some (c, i) -> chunk_ok c;
+  inv_cur : match cur_blk s with
+            | Some b => exists c i, cur_conn s = Some (c, i) /\ nth_error (c_blocks c) i = Some b
+                                    /\ b_no b = (b_no (prev_blk s) + 1)%N /\ b_prev b = b_hash (prev_blk s)
+            | None => forall c i, cur_conn s = Some (c, i) -> nth_error (c_blocks c) i = Some (prev_blk s)
+            end
+}.
+
+(** consecutive heights, each a child of the previous, each named by the hash list *)
+Fixpoint chain_from (p : blk) (d : list blk) : Prop :=
+  match d with
+  | [] => True
+  | b :: r => b_no b = (b_no p + 1)%N /\ b_prev b = b_hash p /\ blk_named b /\ chain_from b r
+  end.
+
+(* ---- list facts ---- *)
+Lemma numbered_nth : forall bs n i b, numbered_from n bs = true -> nth_error bs i = Some b ->
+  b_no b = (n + N.of_nat i)%N.
+Proof.
+  induction bs as [|x r IH]; intros n i b H E; [destruct i; discriminate|].
+  simpl in H. apply andb_prop in H. destruct H as [H1 H2]. apply N.eqb_eq in H1.
+  destruct i; simpl in E.
+  - inversion E; subst. lia.
+  - rewrite (IH _ _ _ H2 E). lia.
+Qed.
+
+Lemma linked_nth : forall bs p i x y, linked_from p bs = true ->
+  nth_error bs i = Some x -> nth_error bs (S i) = Some y -> b_prev y = b_hash x.
+Proof.
+  induction bs as [|z r IH]; intros p i x y H E1 E2; [destruct i; discriminate|].
+  simpl in H. apply andb_prop in H. destruct H as [H1 H2].
+  destruct i; simpl in E1, E2.
+  - inversion E1; subst. destruct r; [discriminate|]. simpl in E2. inversion E2; subst.
+    simpl in H2. apply andb_prop in H2. destruct H2 as [H3 _]. apply N.eqb_eq in H3. auto.
+  - eapply IH; eauto.
+Qed.
+
+Lemma chunk_linked_nth : forall bs i x y, chunk_linked bs = true ->
+  nth_error bs i = Some x -> nth_error bs (S i) = Some y -> b_prev y = b_hash x.
+Proof.
+  intros bs i x y H E1 E2. destruct bs as [|z r]; [discriminate|]. simpl in H.
+  destruct i; simpl in E1, E2.
+  - inversion E1; subst. destruct r; [discriminate|]. simpl in E2. inversion E2; subst.
+    simpl in H. apply andb_prop in H. destruct H as [H3 _]. apply N.eqb_eq in H3. auto.
+  - eapply linked_nth; eauto.
+Qed.
+
+Lemma list_eqb_eq : forall a b, list_eqb a b = true -> a = b.
+Proof.
+  induction a as [|x r IH]; destruct b; simpl; intros H; try discriminate; auto.
+  apply andb_prop in H. destruct H as [H1 H2]. apply N.eqb_eq in H1. f_equal; auto.
+Qed.
+
+Lemma take_first_spec : forall f q t r, take_first f q = Some (t, r) ->
+  f t = true /\ In t q /\ (forall x, In x r -> In x q).
+Proof.
+  induction q as [|x q IH]; simpl; intros t r E; [discriminate|].
+  destruct (f x) eqn:F.
+  - inversion E; subst. repeat split; auto.
+  - destruct (take_first f q) as [[y r']|] eqn:T; [|discriminate]. inversion E; subst.
+    destruct (IH _ _ eq_refl) as (A & B & C). repeat split; auto.
+    intros z [->|Hz]; auto.
+Qed.
+
+Lemma Forall_sub : forall (A : Type) (P : A -> Prop) l r, Forall P l -> (forall x, In x r -> In x l) -> Forall P r.
+Proof. intros. rewrite Forall_forall in *. auto. Qed.
+
+Lemma retry_push_Forall : forall (P : task -> Prop) t q, P t -> Forall P q -> Forall P (retry_push t q).
+Proof.
+  induction q as [|x r IH]; simpl; intros Ht F; [auto|]. inversion F; subst.
+  destruct (_ <? _)%N; constructor; auto.
+Qed.
+
+Lemma conn_push_Forall : forall (P : chunk -> Prop) c q, P c -> Forall P q -> Forall P (conn_push c q).
+Proof.
+  induction q as [|x r IH]; simpl; intros Ht F; [auto|]. inversion F; subst.
+  destruct (_ <? _)%N; constructor; auto.
+Qed.
+
+Lemma nth_error_firstn : forall (A : Type) n (l : list A) i x, nth_error (firstn n l) i = Some x -> nth_error l i = Some x.
+Proof.
+  induction n; intros l i x H; [destruct i; discriminate|].
+  destruct l; [destruct i; discriminate|]. destruct i; simpl in *; auto.
+Qed.
+
+Lemma nth_error_skipn : forall (A : Type) n (l : list A) i, nth_error (skipn n l) i = nth_error l (n + i).
+Proof.
+  induction n; intros l i; simpl; auto. destruct l; simpl; auto. destruct i; auto.
+Qed.
+
+Lemma split_tasks_ok : forall fuel n start hs,
+  (forall i h, nth_error hs i = Some h -> L (start + N.of_nat i) = Some h) ->
+  Forall task_ok (split_tasks fuel n start hs).
+Proof.
+  induction fuel as [|k IH]; simpl; intros n start hs H; [constructor|].
+  destruct hs as [|h0 r]; [constructor|]. constructor.
+  - intros i h E. simpl t_hashes in E. simpl t_start. apply H. eapply nth_error_firstn; eauto.
+  - apply IH. intros i h E. rewrite nth_error_skipn in E.
+    assert (Len : (length (firstn n (h0 :: r)) <= n)%nat) by apply firstn_le_length.
+    destruct (Nat.le_gt_cases n (length (h0 :: r))) as [C|C].
+    + rewrite firstn_length_le by auto. replace (start + N.of_nat n + N.of_nat i)%N with (start + N.of_nat (n + i))%N by lia.
+      apply H; auto.
+    + assert (nth_error (h0 :: r) (n + i) = None) by (apply nth_error_None; lia). congruence.
+Qed.
+End Named.
+
+
+Section Named.
+Variable L : N -> option N.
+Notation Inv := (Inv L).
+Notation chunk_ok := (chunk_ok L).
+Notation task_ok := (task_ok L).
+Notation chain_from := (chain_from L).
+
+Lemma Inv_set_proc : forall s q cc cb pb, Inv s -> Forall chunk_ok q ->
+  (forall c i, cc = Some (c, i) -> chunk_ok c) ->
+  (match cb with
+   | Some b => exists c i, cc = Some (c, i) /\ nth_error (c_blocks c) i = Some b
+                           /\ b_no b = (b_no pb + 1)%N /\ b_prev b = b_hash pb
+   | None => forall c i, cc = Some (c, i) -> nth_error (c_blocks c) i = Some pb
+   end) -> Inv (set_proc s q cc cb pb).
+Proof. intros s q cc cb pb I Hq Hc Hb. destruct I. constructor; simpl; auto. Qed.
+
+Lemma Inv_set_queues : forall s r p y, Inv s -> Forall task_ok r -> Forall task_ok p -> Forall task_ok y ->
+  Inv (set_queues s r p y).
+Proof. intros s r p y I H1 H2 H3. destruct I. constructor; simpl; auto. Qed.
+
+Lemma Inv_set_peers : forall s f b, Inv s -> Inv (set_peers s f b).
+Proof. intros s f b I. destruct I. constructor; simpl; auto. Qed.
+
+Lemma Inv_set_hs : forall s c h, Inv s -> hs_ok L h -> Inv (set_hs s c h).
+Proof. intros s c h I H. destruct I. constructor; simpl; auto. Qed.
+
+Lemma Inv_set_stopped : forall s, Inv s -> Inv (set_stopped s).
+Proof. intros s I. destruct I. constructor; simpl; auto. Qed.
+
+Definition one (ob : option blk) : list blk := match ob with Some b => [b] | None => [] end.
+
+Lemma pop_conn_spec : forall s c q, Inv s -> pop_conn s = inl (Some (c, q)) ->
+  connq s = c :: q /\ exists b, nth_error (c_blocks c) 0 = Some b
+    /\ b_no b = (b_no (prev_blk s) + 1)%N /\ b_prev b = b_hash (prev_blk s).
+Proof.
+  intros s c q I. unfold pop_conn. destruct (connq s) as [|c0 r] eqn:Q; [discriminate|].
+  destruct (N.eqb_spec (c_first c0) (b_no (prev_blk s) + 1)) as [E|E]; simpl; [|discriminate].
+  destruct (c_blocks c0) as [|b bs] eqn:B; [discriminate|].
+  destruct (N.eqb_spec (b_prev b) (b_hash (prev_blk s))) as [E2|E2]; [|discriminate].
+  intros H; inversion H; subst. split; auto. exists b. rewrite B. simpl. repeat split; auto.
+  pose proof (inv_q _ _ I) as F. rewrite Q in F. inversion F; subst. destruct H2 as (Nn & _ & _).
+  rewrite B in Nn. simpl in Nn. apply andb_prop in Nn. destruct Nn as [N1 _]. apply N.eqb_eq in N1. lia.
+Qed.
+
+Ltac inv_fields I :=
+  constructor; simpl;
+  [apply (inv_run _ _ I)|apply (inv_pend _ _ I)|apply (inv_retry _ _ I)|apply (inv_hs _ _ I)| | | ].
+
+Lemma get_next_ok : forall s, Inv s ->
+  match get_next s with
+  | inl (s', ob) => Inv s' /\ chain_from (last_of s) (one ob)
+                    /\ last_of s' = match ob with Some b => b | None => last_of s end
+                    /\ stopped s' = stopped s
+  | inr _ => True
+  end.
+Proof.
+  intros s I. unfold get_next, get_next_with.
+  destruct (cur_blk s) as [cb|] eqn:CB.
+  { simpl. split; [exact I|]. split; [constructor|]. split; reflexivity. }
+  pose proof (inv_cur _ _ I) as IC. rewrite CB in IC.
+  assert (LO : last_of s = prev_blk s) by (unfold last_of; rewrite CB; auto).
+  assert (POP : forall s1, s1 = set_proc s (connq s) None None (prev_blk s) ->
+    match
+      match
+        match pop_conn s1 with
+        | inl (Some (c0, q)) => inl (Some (c0, O, set_proc s1 q (Some (c0, O)) None (prev_blk s1)))
+        | inl None => inl None
+        | inr e => inr e
+        end
+      with
+      | inl (Some (c0, i0, s2)) =>
+          match nth_error (c_blocks c0) i0 with
+          | Some b => inl (set_proc s2 (connq s2) (Some (c0, i0)) (Some b) (prev_blk s2), Some b)
+          | None => inr E_PANIC
+          end
+      | inl None => inl (s1, None)
+      | inr e => inr e
+      end
+    with
+    | inl (s', ob) => Inv s' /\ chain_from (last_of s) (one ob)
+                      /\ last_of s' = match ob with Some b => b | None => last_of s end
+                      /\ stopped s' = stopped s
+    | inr _ => True
+    end).
+  { intros s1 E1.
+    assert (I1 : Inv s1).
+    { subst s1. apply Inv_set_proc; auto. apply (inv_q _ _ I). intros; discriminate. intros; discriminate. }
+    destruct (pop_conn s1) as [[[c2 q]|]|e] eqn:P; auto.
+    - destruct (pop_conn_spec s1 c2 q I1 P) as (Q & b & B0 & Bn & Bp).
+      subst s1. simpl in Q, Bn, Bp. rewrite B0.
+      pose proof (inv_q _ _ I) as F. rewrite Q in F. inversion F as [|? ? H1 H2]; subst.
+      split; [|split; [|split]].
+      + inv_fields I.
+        * exact H2.
+        * intros c' i' E; inversion E; subst; auto.
+        * exists c2, O. repeat split; auto.
+      + simpl. rewrite LO. repeat split; auto.
+        destruct H1 as (_ & _ & Nm). rewrite Forall_forall in Nm. apply Nm. eapply nth_error_In; eauto.
+      + reflexivity.
+      + reflexivity.
+    - subst s1. split; [exact I1|]. split; [constructor|]. split; [|reflexivity].
+      unfold last_of. simpl. rewrite CB. reflexivity. }
+  destruct (cur_conn s) as [[c i]|] eqn:CC.
+  - pose proof (inv_cc _ _ I c i CC) as (Cn & Cl & Cnm).
+    specialize (IC c i eq_refl).
+    destruct (Nat.leb_spec (length (c_blocks c)) (S i)) as [Fin|More].
+    + apply POP. reflexivity.
+    + destruct (nth_error (c_blocks c) (S i)) as [b|] eqn:B.
+      * cbn -[nth_error]. split; [|split; [|split]].
+        -- inv_fields I.
+           ++ apply (inv_q _ _ I).
+           ++ intros c' i' E; inversion E; subst. repeat split; auto.
+           ++ exists c, (S i). repeat split; auto.
+              ** rewrite (numbered_nth _ _ _ _ Cn B), (numbered_nth _ _ _ _ Cn IC). lia.
+              ** eapply chunk_linked_nth; eauto.
+        -- simpl. rewrite LO. repeat split.
+           ++ rewrite (numbered_nth _ _ _ _ Cn B), (numbered_nth _ _ _ _ Cn IC). lia.
+           ++ eapply chunk_linked_nth; eauto.
+           ++ rewrite Forall_forall in Cnm. apply Cnm. eapply nth_error_In; eauto.
+        -- reflexivity.
+        -- reflexivity.
+      * cbn -[nth_error]. auto.
+  - apply POP. reflexivity.
+Qed.
+End Named.
+
+
+Section Named.
+Variable L : N -> option N.
+Notation Inv := (Inv L).
+Notation chunk_ok := (chunk_ok L).
+Notation task_ok := (task_ok L).
+Notation chain_from := (chain_from L).
+
+Definition proc_eq (s s' : st) : Prop :=
+  connq s' = connq s /\ cur_conn s' = cur_conn s /\ cur_blk s' = cur_blk s /\ prev_blk s' = prev_blk s.
+
+Lemma proc_eq_refl : forall s, proc_eq s s.
+Proof. intros. repeat split. Qed.
+Lemma proc_eq_trans : forall a b c, proc_eq a b -> proc_eq b c -> proc_eq a c.
+Proof. intros a b c (A1 & A2 & A3 & A4) (B1 & B2 & B3 & B4). repeat split; congruence. Qed.
+Lemma proc_eq_last : forall s s', proc_eq s s' -> last_of s' = last_of s.
+Proof. intros s s' (A1 & A2 & A3 & A4). unfold last_of. rewrite A3, A4. auto. Qed.
+
+Lemma Inv_change : forall s s', Inv s -> proc_eq s s' ->
+  Forall task_ok (running s') -> Forall task_ok (pending s') -> Forall task_ok (retry s') ->
+  hs_ok L (hfch s') -> Inv s'.
+Proof.
+  intros s s' I (A1 & A2 & A3 & A4) R P Y H. destruct I. constructor; auto.
+  - rewrite A1; auto.
+  - rewrite A2; auto.
+  - rewrite A2, A3, A4; auto.
+Qed.
+
+Lemma task_ok_retag : forall t r p, task_ok t -> task_ok (mkTask (t_start t) (t_hashes t) r p).
+Proof. intros t r p H. exact H. Qed.
+
+Lemma process_failed_ok : forall s t e s' bad, Inv s -> task_ok t ->
+  process_failed_task s t e = (s', bad) -> Inv s' /\ proc_eq s s' /\ stopped s' = stopped s.
+Proof.
+  intros s t e s' bad I T. unfold process_failed_task. intros H. inversion H; subst. clear H.
+  assert (Q : forall s1, (s1 = s \/ exists p, s1 = peer_fail s p e) ->
+              proc_eq s s1 /\ running s1 = running s /\ pending s1 = pending s /\ retry s1 = retry s
+              /\ hfch s1 = hfch s /\ stopped s1 = stopped s).
+  { intros s1 [->|[p ->]]; [repeat split|]. unfold peer_fail. destruct (_ || _); repeat split. }
+  set (s1 := match t_peer t with Some p => peer_fail s p e | None => s end).
+  destruct (Q s1) as (PE & R1 & P1 & Y1 & H1 & St1).
+  { unfold s1. destruct (t_peer t); eauto. }
+  assert (PE2 : proc_eq s (set_queues s1 (running s1) (pending s1)
+                 (retry_push (mkTask (t_start t) (t_hashes t) (S (t_retry t)) None) (retry s1)))).
+  { destruct PE as (A1 & A2 & A3 & A4). repeat split; simpl; auto. }
+  split; [|split].
+  - eapply Inv_change; [exact I|exact PE2|simpl|simpl|simpl|simpl].
+    + rewrite R1. apply (inv_run _ _ I).
+    + rewrite P1. apply (inv_pend _ _ I).
+    + apply retry_push_Forall; [apply task_ok_retag; auto|]. rewrite Y1. apply (inv_retry _ _ I).
+    + rewrite H1. apply (inv_hs _ _ I).
+  - exact PE2.
+  - simpl. auto.
+Qed.
+
+Lemma search_candidate_ok : forall c s cand s', Inv s -> search_candidate c s = (cand, s') ->
+  Inv s' /\ proc_eq s s' /\ stopped s' = stopped s /\ running s' = running s
+  /\ match cand with
+     | Some t => task_ok t
+     | None => True
+     end.
+Proof.
+  intros c s cand s' I. unfold search_candidate.
+  destruct (retry s) as [|t r] eqn:Y.
+  - destruct (pending s) as [|t r] eqn:P.
+    + destruct (hfch s) as [[start hs]|] eqn:H.
+      * intros E; inversion E; subst. clear E.
+        pose proof (inv_hs _ _ I) as Hh. rewrite H in Hh. simpl in Hh.
+        pose proof (split_tasks_ok L (S (length hs)) (fetch_size c) start hs Hh) as F.
+        split; [|split; [|split; [|split]]].
+        -- eapply Inv_change; [exact I|repeat split|simpl; apply (inv_run _ _ I)|simpl; exact F
+                               |simpl; try rewrite Y; constructor|simpl; constructor].
+        -- repeat split.
+        -- reflexivity.
+        -- reflexivity.
+        -- clear F. destruct hs as [|h0 hr]; simpl; auto.
+           intros i h E. simpl in E. apply Hh. eapply nth_error_firstn; eauto.
+      * intros E; inversion E; subst. split; [exact I|]. split; [apply proc_eq_refl|]. repeat split; auto.
+    + intros E; inversion E; subst. split; [exact I|]. split; [apply proc_eq_refl|]. repeat split; auto.
+      pose proof (inv_pend _ _ I) as F. rewrite P in F. inversion F; auto.
+  - intros E; inversion E; subst. split; [exact I|]. split; [apply proc_eq_refl|]. repeat split; auto.
+    pose proof (inv_retry _ _ I) as F. rewrite Y in F. inversion F; auto.
+Qed.
+
+Lemma Forall_tl : forall (A : Type) (P : A -> Prop) l, Forall P l -> Forall P (tl l).
+Proof. intros A P l F. destruct l; simpl; auto. inversion F; auto. Qed.
+
+Lemma schedule_ok : forall fuel c s s' o e, Inv s -> schedule fuel c s = (s', o, e) ->
+  Inv s' /\ proc_eq s s' /\ delivered o = [] /\ stops o = [] /\ stopped s' = stopped s.
+Proof.
+  induction fuel as [|k IH]; simpl; intros c s s' o e I H.
+  - inversion H; subst. split; [exact I|]. split; [apply proc_eq_refl|]. repeat split; auto.
+  - destruct (free s) as [|p frest] eqn:F.
+    + inversion H; subst. split; [exact I|]. split; [apply proc_eq_refl|]. repeat split; auto.
+    + destruct (max_tasks c <=? length (running s))%nat.
+      * inversion H; subst. split; [exact I|]. split; [apply proc_eq_refl|]. repeat split; auto.
+      * destruct (search_candidate c s) as [cand s1] eqn:SC.
+        destruct (search_candidate_ok c s cand s1 I SC) as (I1 & PE1 & St1 & R1 & Tk).
+        destruct cand as [t|].
+        -- destruct ((max_pending c <=? length (connq s1))%nat && (t_retry t =? 0)%nat).
+           ++ inversion H; subst. split; [exact I1|]. split; [exact PE1|]. repeat split; auto.
+           ++ destruct (all_bad s1).
+              ** inversion H; subst. split; [exact I1|]. split; [exact PE1|]. repeat split; auto.
+              ** assert (I4 : Inv (launch s1 t p frest) /\ proc_eq s1 (launch s1 t p frest)
+                              /\ stopped (launch s1 t p frest) = stopped s1).
+                 { unfold launch. destruct (t_retry t) eqn:Rt.
+                   - split; [|split; [repeat split|reflexivity]].
+                     eapply Inv_change; [exact I1|repeat split|simpl|simpl|simpl|simpl].
+                     + apply Forall_app. split; [apply (inv_run _ _ I1)|]. constructor; [exact Tk|constructor].
+                     + apply Forall_tl. apply (inv_pend _ _ I1).
+                     + apply (inv_retry _ _ I1).
+                     + apply (inv_hs _ _ I1).
+                   - split; [|split; [repeat split|reflexivity]].
+                     eapply Inv_change; [exact I1|repeat split|simpl|simpl|simpl|simpl].
+                     + apply Forall_app. split; [apply (inv_run _ _ I1)|]. constructor; [exact Tk|constructor].
+                     + apply (inv_pend _ _ I1).
+                     + apply Forall_tl. apply (inv_retry _ _ I1).
+                     + apply (inv_hs _ _ I1). }
+                 set (s4 := launch s1 t p frest) in *.
+                 destruct I4 as (I4 & PE4 & St4).
+                 destruct (schedule k c s4) as [[s5 outs] e0] eqn:SK.
+                 destruct (IH c s4 s5 outs e0 I4 SK) as (I5 & PE5 & D5 & S5 & St5).
+                 inversion H; subst. split; [auto|]. split; [|split; [|split]].
+                 --- eapply proc_eq_trans; [exact PE1|]. eapply proc_eq_trans; eauto.
+                 --- simpl. auto.
+                 --- simpl. auto.
+                 --- congruence.
+        -- inversion H; subst. split; [exact I1|]. split; [exact PE1|]. repeat split; auto.
+Qed.
+End Named.
+
+
+Section Named.
+Variable L : N -> option N.
+Notation Inv := (Inv L).
+Notation chunk_ok := (chunk_ok L).
+Notation task_ok := (task_ok L).
+Notation chain_from := (chain_from L).
+
+Lemma matched_chunk_ok : forall t p bs, task_ok t -> is_matched t p bs = true -> chunk_linked bs = true ->
+  chunk_ok (mkChunk (match bs with b :: _ => b_no b | [] => 0%N end) bs).
+Proof.
+  intros t p bs T M Lk. unfold is_matched in M.
+  apply andb_prop in M. destruct M as [M Nm]. apply andb_prop in M. destruct M as [M Eq].
+  apply list_eqb_eq in Eq.
+  destruct bs as [|b r]; [discriminate|].
+  assert (F : b_no b = t_start t).
+  { simpl in Nm. apply andb_prop in Nm. destruct Nm as [N1 _]. apply N.eqb_eq in N1. auto. }
+  unfold chunk_ok. simpl c_first. simpl c_blocks. rewrite F. split; [exact Nm|]. split; [exact Lk|].
+  apply Forall_forall. intros x Hx. destruct (In_nth_error _ _ Hx) as [i Hi].
+  unfold blk_named. rewrite (numbered_nth _ _ _ _ Nm Hi). apply T. rewrite Eq.
+  apply map_nth_error. auto.
+Qed.
+
+Lemma delivered_app : forall a b, delivered (a ++ b) = delivered a ++ delivered b.
+Proof. intros. unfold delivered. apply flat_map_app. Qed.
+Lemma stops_app : forall a b, stops (a ++ b) = stops a ++ stops b.
+Proof. intros. unfold stops. apply flat_map_app. Qed.
+
+Lemma delivered_out_add : forall ob, delivered (out_add ob) = one ob.
+Proof. destruct ob; reflexivity. Qed.
+
+Lemma last_one : forall ob p, last (one ob) p = match ob with Some b => b | None => p end.
+Proof. destruct ob; reflexivity. Qed.
+
+Lemma last_nonempty_irrel : forall (x : blk) r a b, last (x :: r) a = last (x :: r) b.
+Proof. intros x r. revert x. induction r as [|y r IH]; intros x a b; [reflexivity|]. simpl in *. apply (IH y). Qed.
+
+Lemma chain_from_app : forall d1 d2 p, chain_from p (d1 ++ d2) <-> chain_from p d1 /\ chain_from (last d1 p) d2.
+Proof.
+  induction d1 as [|b r IH]; intros d2 p; [simpl; tauto|].
+  change ((b :: r) ++ d2) with (b :: (r ++ d2)). cbn [Proofs.chain_from]. rewrite IH.
+  assert (E : last (b :: r) p = last r b).
+  { destruct r as [|x r']; [reflexivity|]. change (last (b :: x :: r') p) with (last (x :: r') p).
+    apply last_nonempty_irrel. }
+  rewrite E. tauto.
+Qed.
+
+Lemma last_app_blk : forall (d1 d2 : list blk) p, last (d1 ++ d2) p = last d2 (last d1 p).
+Proof.
+  induction d1 as [|b r IH]; intros d2 p; [reflexivity|].
+  destruct d2 as [|y d2'].
+  - rewrite app_nil_r. reflexivity.
+  - change ((b :: r) ++ y :: d2') with (b :: (r ++ y :: d2')).
+    destruct r as [|x r'].
+    + simpl. apply last_nonempty_irrel.
+    + change (last (b :: (x :: r') ++ y :: d2') p) with (last ((x :: r') ++ y :: d2') p).
+      rewrite IH. change (last (b :: x :: r') p) with (last (x :: r') p). reflexivity.
+Qed.
+
+(** what every handler guarantees *)
+Definition handler_ok (s s' : st) (o : list out) : Prop :=
+  Inv s' /\ chain_from (last_of s) (delivered o) /\ last_of s' = last (delivered o) (last_of s)
+  /\ stopped s' = stopped s.
+
+Ltac triv I := split; [exact I|]; simpl; repeat split; auto.
+
+Lemma on_chunk_ok : forall s p bs err s' o e, Inv s -> on_chunk s p bs err = (s', o, e) -> handler_ok s s' o.
+Proof.
+  intros s p bs err s' o e I. unfold on_chunk, on_chunk_with, handler_ok.
+  destruct (err || negb (chunk_linked bs)) eqn:Bad.
+  - destruct (take_first (fun t => peer_is t p) (running s)) as [[t r]|] eqn:TF.
+    + destruct (take_first_spec _ _ _ _ TF) as (_ & Tin & Sub).
+      pose proof (inv_run _ _ I) as FR.
+      assert (Tk : task_ok t) by (rewrite Forall_forall in FR; auto).
+      assert (I0 : Inv (set_queues s r (pending s) (retry s))).
+      { apply Inv_set_queues; auto. eapply Forall_sub; eauto. apply (inv_pend _ _ I). apply (inv_retry _ _ I). }
+      destruct (process_failed_task (set_queues s r (pending s) (retry s)) t false) as [s1 bad] eqn:PF.
+      destruct (process_failed_ok L _ _ _ _ _ I0 Tk PF) as (I1 & PE & St).
+      intros H; inversion H; subst. split; [auto|]. simpl. split; [auto|]. split; [|auto].
+      rewrite (proc_eq_last _ _ PE). reflexivity.
+    + intros H; inversion H; subst. triv I.
+  - apply orb_false_elim in Bad. destruct Bad as [_ Lk]. apply negb_false_iff in Lk.
+    destruct (take_first (fun t => is_matched t p bs) (running s)) as [[t r]|] eqn:TF.
+    + destruct (take_first_spec _ _ _ _ TF) as (M & Tin & Sub).
+      pose proof (inv_run _ _ I) as FR.
+      assert (Tk : task_ok t) by (rewrite Forall_forall in FR; auto).
+      set (s1 := set_queues s r (pending s) (retry s)).
+      assert (I1 : Inv s1).
+      { apply Inv_set_queues; auto. eapply Forall_sub; eauto. apply (inv_pend _ _ I). apply (inv_retry _ _ I). }
+      set (s2 := match t_peer t with Some q => set_peers s1 (free s1 ++ [q]) (nbad s1) | None => s1 end).
+      assert (I2 : Inv s2 /\ proc_eq s s2 /\ stopped s2 = stopped s).
+      { unfold s2. destruct (t_peer t); [split; [apply Inv_set_peers; auto|]|split; [auto|]]; split; repeat split. }
+      destruct I2 as (I2 & PE2 & St2).
+      set (c := mkChunk (match bs with b :: _ => b_no b | [] => 0%N end) bs).
+      set (s3 := set_proc s2 (conn_push c (connq s2)) (cur_conn s2) (cur_blk s2) (prev_blk s2)).
+      assert (I3 : Inv s3).
+      { unfold s3. apply Inv_set_proc; auto.
+        - apply conn_push_Forall; [eapply matched_chunk_ok; eauto|apply (inv_q _ _ I2)].
+        - apply (inv_cc _ _ I2).
+        - apply (inv_cur _ _ I2). }
+      assert (L3 : last_of s3 = last_of s).
+      { unfold s3, last_of. simpl. destruct PE2 as (_ & _ & A3 & A4). rewrite A3, A4. reflexivity. }
+      pose proof (get_next_ok L s3 I3) as G. unfold get_next in G.
+      destruct (get_next_with pop_conn s3) as [[s4 ob]|e4].
+      * destruct G as (I4 & Ch & La & St4). intros H; inversion H; subst.
+        rewrite delivered_out_add, last_one. rewrite L3 in *. split; [exact I4|]. split; [auto|]. split; [auto|].
+        rewrite St4. unfold s3. simpl. auto.
+      * intros H; inversion H; subst. split; [exact I3|]. simpl. rewrite L3. repeat split; auto.
+    + intros H; inversion H; subst. triv I.
+Qed.
+
+Lemma on_add_rsp_ok : forall c s no h err s' o e, Inv s -> on_add_rsp c s no h err = (s', o, e) -> handler_ok s s' o.
+Proof.
+  intros c s no h err s' o e I. unfold on_add_rsp, on_add_rsp_with, handler_ok.
+  destruct err; [intros H; inversion H; subst; triv I|].
+  destruct h as [h|]; [|intros H; inversion H; subst; triv I].
+  destruct (cur_blk s) as [cb|] eqn:CB; [|intros H; inversion H; subst; triv I].
+  destruct (negb ((b_no cb =? no)%N && (b_hash cb =? h)%N)); [intros H; inversion H; subst; triv I|].
+  set (s1 := set_proc s (connq s) (cur_conn s) None cb).
+  assert (I1 : Inv s1).
+  { unfold s1. apply Inv_set_proc; auto. apply (inv_q _ _ I). apply (inv_cc _ _ I).
+    pose proof (inv_cur _ _ I) as IC. rewrite CB in IC. destruct IC as (c0 & i0 & E0 & N0 & _).
+    intros c1 i1 E1. rewrite E0 in E1. inversion E1; subst. auto. }
+  assert (L1 : last_of s1 = last_of s).
+  { unfold s1, last_of. simpl. rewrite CB. reflexivity. }
+  pose proof (get_next_ok L s1 I1) as G. unfold get_next in G.
+  destruct (get_next_with pop_conn s1) as [[s2 ob]|e2].
+  - destruct G as (I2 & Ch & La & St2). intros H; inversion H; subst.
+    assert (D : delivered ((if (b_no cb =? c_target c)%N then [OStop E_OK] else []) ++ out_add ob) = one ob).
+    { rewrite delivered_app, delivered_out_add. destruct (_ =? _)%N; reflexivity. }
+    rewrite D, last_one. rewrite L1 in *. split; [exact I2|]. split; [auto|]. split; [auto|].
+    rewrite St2. reflexivity.
+  - intros H; inversion H; subst.
+    assert (D : delivered (if (b_no cb =? c_target c)%N then [OStop E_OK] else []) = []).
+    { destruct (_ =? _)%N; reflexivity. }
+    rewrite D. split; [exact I1|]. simpl. rewrite L1. repeat split; auto.
+Qed.
+
+Lemma check_timeout_ok : forall timed todo s s' e, Inv s -> Forall task_ok todo ->
+  check_timeout timed todo s = (s', e) -> Inv s' /\ proc_eq s s' /\ stopped s' = stopped s.
+Proof.
+  induction todo as [|t r IH]; intros s s' e I F H; [simpl in H|cbn [check_timeout] in H].
+  - inversion H; subst. split; [auto|]. split; [apply proc_eq_refl|auto].
+  - inversion F as [|? ? Tk Fr]; subst.
+    destruct (existsb (N.eqb (t_start t)) timed).
+    + set (s0 := set_queues s (snd (partition (fun x => (t_start x =? t_start t)%N) (running s))) (pending s) (retry s)) in *.
+      assert (I0 : Inv s0).
+      { unfold s0. apply Inv_set_queues; auto; try apply (inv_pend _ _ I); try apply (inv_retry _ _ I).
+        pose proof (inv_run _ _ I) as FR. rewrite Forall_forall in *. intros x Hx. apply FR.
+        destruct (partition _ (running s)) as [a b] eqn:P. simpl in Hx.
+        eapply elements_in_partition in P. apply P. auto. }
+      destruct (process_failed_task s0 t false) as [s1 bad] eqn:PF.
+      destruct (process_failed_ok L _ _ _ _ _ I0 Tk PF) as (I1 & PE & St).
+      assert (PE0 : proc_eq s s1).
+      { eapply proc_eq_trans; [|exact PE]. unfold s0. repeat split. }
+      destruct bad.
+      * injection H as <- <-. split; [exact I1|]. split; [exact PE0|]. etransitivity; [exact St|reflexivity].
+      * destruct (IH _ _ _ I1 Fr H) as (I2 & PE2 & St2). split; [auto|]. split.
+        -- eapply proc_eq_trans; eauto.
+        -- etransitivity; [exact St2|]. etransitivity; [exact St|reflexivity].
+    + eapply IH; eauto.
+Qed.
+
+Definition ev_ok (e : event) : Prop :=
+  match e with EHashSet start hs => hs_ok L (Some (start, hs)) | _ => True end.
+
+Lemma finish_ok : forall c s0 s o e s' o', Inv s -> chain_from (last_of s0) (delivered o) ->
+  last_of s = last (delivered o) (last_of s0) ->
+  finish c (s, o, e) = (s', o') ->
+  Inv s' /\ chain_from (last_of s0) (delivered o') /\ last_of s' = last (delivered o') (last_of s0).
+Proof.
+  intros c s0 s o e s' o' I Ch La. unfold finish.
+  destruct e as [err|].
+  - intros H; inversion H; subst. rewrite delivered_app. simpl. rewrite app_nil_r.
+    split; [apply Inv_set_stopped; auto|]. split; auto.
+  - destruct (schedule (S (length (free s))) c s) as [[s1 o1] e1] eqn:SC.
+    destruct (schedule_ok L _ _ _ _ _ _ I SC) as (I1 & PE & D1 & S1 & St1).
+    pose proof (proc_eq_last _ _ PE) as L1.
+    destruct e1 as [err|]; intros H; inversion H; subst.
+    + rewrite !delivered_app, D1. simpl. rewrite app_nil_r.
+      split; [apply Inv_set_stopped; auto|]. split; auto.
+      unfold last_of in *. simpl. rewrite <- La. exact L1.
+    + rewrite delivered_app, D1, app_nil_r. split; auto. split; auto. rewrite <- La. exact L1.
+Qed.
+
+Theorem step_ok : forall c s e s' o, Inv s -> ev_ok e -> step c s e = (s', o) ->
+  Inv s' /\ chain_from (last_of s) (delivered o) /\ last_of s' = last (delivered o) (last_of s).
+Proof.
+  intros c s e s' o I Ev. unfold step, step_with.
+  destruct (stopped s); [intros H; inversion H; subst; simpl; auto|].
+  destruct e as [start hs|p bs err|no h err|timed|].
+  - intros H; inversion H; subst. simpl. split; [|split; [auto|]].
+    + destruct (hfch s); auto. apply Inv_set_hs; auto.
+    + destruct (hfch s); reflexivity.
+  - destruct (on_chunk_with pop_conn s p bs err) as [[s1 o1] e1] eqn:OC.
+    destruct (on_chunk_ok _ _ _ _ _ _ _ I OC) as (I1 & Ch & La & _).
+    intros H. eapply finish_ok; eauto.
+  - destruct (on_add_rsp_with pop_conn c s no h err) as [[s1 o1] e1] eqn:OA.
+    destruct (on_add_rsp_ok _ _ _ _ _ _ _ _ I OA) as (I1 & Ch & La & _).
+    intros H. eapply finish_ok; eauto.
+  - destruct (check_timeout timed (running s) s) as [s1 e1] eqn:CT.
+    destruct (check_timeout_ok _ _ _ _ _ I (inv_run _ _ I) CT) as (I1 & PE & _).
+    intros H. apply (finish_ok c s s1 [] e1 s' o I1); [simpl; auto|simpl; apply proc_eq_last; auto|exact H].
+  - intros H; inversion H; subst. simpl. split; [apply Inv_set_stopped; auto|]. split; auto.
+Qed.
+
+Theorem run_ok : forall c es s s' o, Inv s -> Forall ev_ok es -> run c s es = (s', o) ->
+  Inv s' /\ chain_from (last_of s) (delivered o) /\ last_of s' = last (delivered o) (last_of s).
+Proof.
+  intros c. induction es as [|e r IH]; simpl; intros s s' o I F H.
+  - inversion H; subst. simpl. auto.
+  - inversion F as [|? ? Fe Fr]; subst.
+    unfold run in *. simpl in H.
+    destruct (step_with pop_conn c s e) as [s1 o1] eqn:S1.
+    destruct (run_with pop_conn c s1 r) as [s2 o2] eqn:R2.
+    inversion H; subst.
+    destruct (step_ok c s e s1 o1 I Fe S1) as (I1 & C1 & L1).
+    destruct (IH _ _ _ I1 Fr R2) as (I2 & C2 & L2).
+    rewrite delivered_app. split; auto. split.
+    + apply chain_from_app. split; auto. rewrite <- L1. auto.
+    + rewrite L2, L1. rewrite last_app_blk. reflexivity.
+Qed.
+End Named.
